@@ -173,6 +173,9 @@ type history struct {
 	// certificates (ignored by the parser), so that reading the INITIAL pair takes tens of
 	// milliseconds - whatever reads it around start-up overlaps with the first update steps
 	SlowInitial bool `json:"slow_initial_parse,omitempty"`
+	// OddPaths: the two paths are configured in a legal but not canonical spelling
+	// (dir/./tls.crt, dir//tls.key)
+	OddPaths bool `json:"non_canonical_path_spelling,omitempty"`
 }
 
 func (h *history) key() string {
@@ -579,6 +582,9 @@ func directed(pool *pairPool) []*history {
 		{Name: "rotate-by-rename-right-after-start", Layout: "plain", Init: 1001, SlowInitial: true, Steps: []step{rn("key", K(2)), rn("cert", C(1002))}},
 		{Name: "rotate-by-rename-cert-first-right-after-start", Layout: "plain", Init: 1001, SlowInitial: true, Steps: []step{rn("cert", C(1002)), rn("key", K(2))}},
 		{Name: "rotate-in-place-right-after-start", Layout: "plain", Init: 1003, SlowInitial: true, Steps: []step{w("cert", C(1004)), w("key", K(4))}},
+		{Name: "odd-path-spelling-inplace", Layout: "plain", Init: 1001, OddPaths: true, Steps: []step{w("cert", C(1002)), w("key", K(2))}},
+		{Name: "odd-path-spelling-rename", Layout: "plain", Init: 1002, OddPaths: true, Steps: []step{rn("key", K(3)), rn("cert", C(1003))}},
+		{Name: "odd-path-spelling-k8s", Layout: "k8s", Init: 1001, OddPaths: true, Steps: []step{settle(k8(C(1002), K(2))), k8(C(1003), K(3))}},
 		// torn reads: the directory flips between {C1002 (slow to read), K3 - not its key} and {garbage, K2 - the
 		// key of C1002}: certificate 1002 and its key are never on the two paths together, a reload that reads
 		// the certificate before a swap and the key after it would put exactly that pair together (D22)
